@@ -1,0 +1,108 @@
+//! Verification hooks (cargo feature `verif_hooks`).
+//!
+//! Add-only entry points used by the external verification harnesses: they
+//! expose the individual stages of `FnGraphBuilder::build`, allow a `FnGraph`
+//! to be assembled from its parts, and count queue pops in the rank
+//! calculation. Nothing here is compiled unless `verif_hooks` is enabled.
+
+use std::sync::atomic::{AtomicUsize, Ordering};
+
+use daggy::Dag;
+
+use crate::{DataAccessDyn, Edge, FnGraph, FnIdInner, Rank};
+
+#[cfg(feature = "async")]
+use crate::EdgeCounts;
+
+/// Number of per-function counters kept for the rank calculation.
+pub const RANK_VISITS_LEN: usize = 8;
+
+static RANK_VISITS: [AtomicUsize; RANK_VISITS_LEN] = [const { AtomicUsize::new(0) }; RANK_VISITS_LEN];
+static RANK_VISITS_TOTAL: AtomicUsize = AtomicUsize::new(0);
+
+/// Records one queue pop of `RankCalc::calc` for the function at `index`.
+pub(crate) fn rank_visit_record(index: usize) {
+    RANK_VISITS_TOTAL.fetch_add(1, Ordering::Relaxed);
+    if index < RANK_VISITS_LEN {
+        RANK_VISITS[index].fetch_add(1, Ordering::Relaxed);
+    }
+}
+
+/// Returns the number of queue pops per function index since the last reset.
+pub fn rank_visits() -> [usize; RANK_VISITS_LEN] {
+    let mut visits = [0; RANK_VISITS_LEN];
+    let mut i = 0;
+    while i < RANK_VISITS_LEN {
+        visits[i] = RANK_VISITS[i].load(Ordering::Relaxed);
+        i += 1;
+    }
+    visits
+}
+
+/// Returns the total number of queue pops since the last reset.
+pub fn rank_visits_total() -> usize {
+    RANK_VISITS_TOTAL.load(Ordering::Relaxed)
+}
+
+/// Resets the queue pop counters.
+pub fn rank_visits_reset() {
+    RANK_VISITS_TOTAL.store(0, Ordering::Relaxed);
+    let mut i = 0;
+    while i < RANK_VISITS_LEN {
+        RANK_VISITS[i].store(0, Ordering::Relaxed);
+        i += 1;
+    }
+}
+
+/// Runs the rank calculation stage of `build()`.
+pub fn rank_calc<F>(graph: &Dag<F, Edge, FnIdInner>) -> Vec<Rank> {
+    crate::fn_graph_builder::verif_rank_calc(graph)
+}
+
+/// Runs the data edge augmentation stage of `build()`.
+pub fn augment<F>(graph: &mut Dag<F, Edge, FnIdInner>, ranks: &[Rank])
+where
+    F: DataAccessDyn,
+{
+    crate::fn_graph_builder::verif_augment(graph, ranks)
+}
+
+/// Runs the predecessor count stage of `build()`.
+#[cfg(feature = "async")]
+pub fn predecessor_counts<F>(graph: &Dag<F, Edge, FnIdInner>) -> EdgeCounts {
+    crate::fn_graph_builder::verif_predecessor_counts(graph)
+}
+
+/// Assembles a `FnGraph` from its parts.
+#[cfg(feature = "async")]
+pub fn fn_graph_from_parts<F>(
+    graph: Dag<F, Edge, FnIdInner>,
+    graph_structure: Dag<(), Edge, FnIdInner>,
+    graph_structure_rev: Dag<(), Edge, FnIdInner>,
+    ranks: Vec<Rank>,
+    edge_counts: EdgeCounts,
+) -> FnGraph<F> {
+    FnGraph {
+        graph,
+        graph_structure,
+        graph_structure_rev,
+        ranks,
+        edge_counts,
+    }
+}
+
+/// Returns the scheduling structures of a `FnGraph`.
+#[cfg(feature = "async")]
+pub fn fn_graph_parts<F>(
+    fn_graph: &FnGraph<F>,
+) -> (
+    &Dag<(), Edge, FnIdInner>,
+    &Dag<(), Edge, FnIdInner>,
+    &EdgeCounts,
+) {
+    (
+        &fn_graph.graph_structure,
+        &fn_graph.graph_structure_rev,
+        &fn_graph.edge_counts,
+    )
+}
